@@ -162,6 +162,14 @@ class VTable(V):
 
 
 @dataclass
+class VConstDict(V):
+    """A constant dict with string keys (a module-level or closure lookup table), in insertion order."""
+
+    entries: List[Tuple[str, V]]
+    kind = "constdict"
+
+
+@dataclass
 class VOpaque(V):
     """Value about which nothing is known except identity (e.g. converter objects)."""
 
@@ -560,6 +568,8 @@ class Interp:
             return ctx.branch(Not(Eq(v.t, '""')))
         if isinstance(v, (VTuple, VList)):
             return len(v.items) > 0
+        if isinstance(v, VConstDict):
+            return len(v.entries) > 0
         if isinstance(v, VObj):
             if v.cls and v.cls in self.world.classes:
                 ci = self.world.classes[v.cls]
@@ -645,6 +655,12 @@ class Interp:
             return VExternal(f"{v.dotted}.{name}")
         if isinstance(v, VStr) and name in PURE_STR_METHODS:
             return VExternal(f"str.{name}", bound=v)
+        if isinstance(v, VConstDict):
+            if name in ("get", "keys", "values", "items"):
+                return VExternal(f"constdict.{name}", bound=v)
+            if hasattr(dict, name):
+                raise Unsupported(f"dict.{name} on a constant table")
+            raise PyRaise("AttributeError", [VStr(smt.sstr(f"'dict' object has no attribute '{name}'"))])
         if name == "__class__":
             return self.type_of(ctx, v)
         if isinstance(v, VClass):
@@ -924,8 +940,22 @@ class Interp:
             return idn
         raise Unsupported(f"is {a} {b}")
 
+    def constdict_lookup(self, ctx: Ctx, d: "VConstDict", key: V) -> Optional[V]:
+        """Value stored under `key`, or None when the key is not in the table (forks on a symbolic string key)."""
+        key = force(ctx, key)
+        if not isinstance(key, VStr):
+            if isinstance(key, (VNone, VBool, VInt, VFloat, VTuple)):
+                return None  # hashable, equal to no string key
+            raise Unsupported(f"lookup of {key.kind} in a constant table")
+        for k, v in d.entries:
+            if self.truth(ctx, self.op_eq(ctx, key, VStr(smt.sstr(k)))):
+                return v
+        return None
+
     def op_in(self, ctx: Ctx, x: V, coll: V) -> V:
         coll = force(ctx, coll)
+        if isinstance(coll, VConstDict):
+            return VBool(TRUE if self.constdict_lookup(ctx, coll, x) is not None else FALSE)
         if isinstance(coll, (VList, VTuple)):
             for it in coll.items:
                 e = self.op_eq(ctx, x, it)  # identity shortcut ignored (values, not objects)
@@ -972,6 +1002,18 @@ class Interp:
                 f.bound.items.extend(more.items)
                 return VNone()
             raise Unsupported("list.extend with a symbolic iterable")
+        if isinstance(f, VExternal) and isinstance(f.bound, VConstDict) and not kwargs:
+            d = f.bound
+            if f.dotted == "constdict.keys" and not args:
+                return VList([VStr(smt.sstr(k)) for k, _ in d.entries])
+            if f.dotted == "constdict.values" and not args:
+                return VList([v for _, v in d.entries])
+            if f.dotted == "constdict.items" and not args:
+                return VList([VTuple([VStr(smt.sstr(k)), v]) for k, v in d.entries])
+            if f.dotted == "constdict.get" and len(args) in (1, 2):
+                hit = self.constdict_lookup(ctx, d, args[0])
+                return hit if hit is not None else (args[1] if len(args) == 2 else VNone())
+            raise Unsupported(f"call of {f.dotted}")
         if isinstance(f, VExternal):
             allargs = ([f.bound] if f.bound is not None else []) + [force(ctx, a) for a in args]
             if (f.dotted in PURE_STR_FUNCS or (f.dotted.startswith("str.") and f.bound is not None)) and not kwargs and allargs and all(isinstance(a, VStr) for a in allargs):
@@ -1014,6 +1056,8 @@ class Interp:
             v = force(ctx, args[0])
             if isinstance(v, (VList, VTuple)):
                 return VInt(smt.sint(len(v.items)))
+            if isinstance(v, VConstDict):
+                return VInt(smt.sint(len(v.entries)))
             if isinstance(v, VStr):
                 return VInt(f"(str.len {v.t})")
             if isinstance(v, VSymList):
@@ -1231,6 +1275,8 @@ class Interp:
             return
         if isinstance(s, ast.For):
             it = force(ctx, self.eval(ctx, s.iter, env, fi))
+            if isinstance(it, VConstDict):
+                it = VList([VStr(smt.sstr(k)) for k, _ in it.entries])  # a dict iterates its keys, in insertion order
             if isinstance(it, (VList, VTuple)):
                 for item in it.items:
                     self.assign(ctx, s.target, item, env, fi)
@@ -1474,6 +1520,11 @@ class Interp:
                 if -len(base.items) <= i < len(base.items):
                     return base.items[i]
                 raise PyRaise("IndexError", [])
+            if isinstance(base, VConstDict):
+                hit = self.constdict_lookup(ctx, base, idx)
+                if hit is None:
+                    raise PyRaise("KeyError", [idx])
+                return hit
             hook = getattr(self, "subscript_hook", None)
             if hook is not None:
                 r = hook(ctx, base, idx)
